@@ -220,6 +220,7 @@ pub fn def(tier: Tier) -> CheckDef {
             "an implicit pi whose parameter is unused prints as `{A} -> B` (recorded finding; pinned by a unit test of the repository): such pis are made explicit by the generator except in a 1/40 share of cases, and counted",
         ],
         idle_limit_s: 300,
+        needs_cli: false,
         parts: vec![
             Part {
                 name: "regressions",
